@@ -880,11 +880,288 @@ def r12_interval_boundary_grid(repo: Repo, rep):
         rep.check(R, len(pts) == n and alt, fi.site(), fi.fq, f"n = {n}: {n} points alternating between the ends", f"{len(pts)} points {pts[:6]}", f"n={n}: {len(pts)} points")
 
 
+# ------------------------------------------------------------------ R-C02-13
+def grid_helper_evaluator(repo: Repo):
+    """row-count models for the grid helpers of sampler_helper: evaluate(fi, n, script, extra) -> (frame, division by zero seen, grid requests);
+    `script` lists how many rows each successive membership test keeps (Need is raised when it is too short)"""
+    from fractions import Fraction
+    from ..absdom.listeval import Evaluator, Model, NotEval, Opaque, UNKNOWN
+    helper = repo.module(f"{OPS}.sampler_helper")
+
+    class Need(Exception):
+        def __init__(self, m):
+            self.m = m
+
+    class Loud(Exception):
+        pass
+
+    class Idx(Model):
+        def __init__(self, n):
+            self.n = n
+
+        def le_len(self):
+            return self.n
+
+        def le_subscript(self, idx):
+            idx = idx[0] if isinstance(idx, tuple) and len(idx) == 1 else idx
+            if isinstance(idx, slice):
+                return Idx(len(range(self.n)[idx]))
+            raise NotEval("index of an index")
+
+    class Mask(Model):
+        def __init__(self, size, trues):
+            self.size, self.trues = size, trues
+
+    class Pts(Model):
+        def __init__(self, rows):
+            self.rows = rows
+
+        def le_len(self):
+            return self.rows
+
+        def le_subscript(self, idx):
+            first = idx[0] if isinstance(idx, tuple) else idx
+            if isinstance(idx, tuple) and len(idx) > 1:
+                raise NotEval("column selection")
+            if isinstance(first, Idx):
+                return Pts(first.n)
+            if isinstance(first, slice):
+                return Pts(len(range(self.rows)[first]))
+            raise NotEval("row selection")
+
+        def le_binop(self, op, other, reflected):
+            if isinstance(op, ast.BitOr) and isinstance(other, Pts):
+                return Pts(self.rows + other.rows)
+            raise NotEval("operator on a point set")
+
+    class Dom(Model):
+        def __init__(self, tag, chooser, surface, requests):
+            self.tag, self.chooser, self.surface, self.requests = tag, chooser, surface, requests
+
+        def le_getattr(self, name):
+            if name == "boundary":
+                return Dom(self.tag + ".boundary", self.chooser, self.surface, self.requests)
+            if name in ("space", "dim"):
+                return Opaque(name)
+            raise NotEval(name)
+
+        def le_call(self, method, args, kws):
+            if method in ("sample_grid", "sample_random_uniform"):
+                n = kws.get("n", args[0] if args else None)
+                if not isinstance(n, int) or isinstance(n, bool):
+                    raise NotEval("symbolic n")
+                if n < 0:
+                    raise Loud()
+                self.requests.append((self.tag, method, n))
+                return Pts(n)
+            if method == "_contains":
+                pts = kws.get("points", args[0] if args else None)
+                if not isinstance(pts, Pts):
+                    raise NotEval("membership of a non-point-set")
+                return Mask(pts.rows, self.chooser(pts.rows))
+            if method == "_repeat_params":
+                return (Opaque("rep0"), Opaque("rep1"))
+            if method in ("volume", "_get_volume"):
+                return self.surface
+            raise NotEval(method)
+
+    def evaluate(fi, n, script, extra):
+        pos = [0]
+        div0 = [False]
+        requests = []
+
+        def chooser(m):
+            i = pos[0]
+            pos[0] += 1
+            if i < len(script):
+                return min(script[i], m)
+            raise Need(m)
+
+        def on_call(e, name, args, kws, ev, f):
+            if name == "torch.logical_not" and args and isinstance(args[0], Mask):
+                return Mask(args[0].size, args[0].size - args[0].trues)
+            if name == "torch.where" and args and len(args) == 1 and isinstance(args[0], Mask):
+                return (Idx(args[0].trues),)
+            if name in ("_random_points_inside", "_random_points_boundary") and args is not None:
+                # contract of the per-row rejection loops (R-C02-3): exactly the requested number of rows
+                m = args[3] if len(args) > 3 else kws.get("n")
+                if not isinstance(m, int) or m < 0:
+                    raise NotEval("top-up count")
+                return Pts(m)
+            if name in helper.functions and args is not None and name != fi.name:
+                h = helper.functions[name]
+                names = [a.arg for a in h.node.args.args]
+                env = dict(zip(names, args))
+                env.update({k: v for k, v in kws.items() if k in names})
+                if len(env) != len(names):
+                    raise NotEval("helper arguments")
+                ev2 = Evaluator(None, on_call)
+                fr2 = ev2.run(h.node.body, env)
+                div0[0] = div0[0] or ev2.zero_division
+                if fr2.ret is UNKNOWN or not fr2.returned:
+                    raise NotEval(f"helper {name}")
+                return fr2.ret
+            if name in ("warnings.warn", "print"):
+                return Opaque("none")
+            return None
+        main = Dom("main", chooser, Fraction(5), requests)
+        a, b = Dom("a", chooser, Fraction(2), requests), Dom("b", chooser, Fraction(3), requests)
+        env = {"main_domain": main, "domain_a": a, "domain_b": b, "n": n, "params": Opaque("params"), "device": "cpu"}
+        env.update(extra)
+        names = [x.arg for x in fi.node.args.args]
+        if set(names) != set(env):
+            raise NotEval(f"parameters {names}")
+        ev1 = Evaluator(None, on_call)
+        fr = ev1.run(fi.node.body, env)
+        return fr, div0[0] or ev1.zero_division, requests
+
+    return evaluate, Need, Loud, Pts, helper
+
+
+def r13_operation_grids(repo: Repo, rep):
+    R = rep.rule("R-C02-13", "the grid helpers of the domain operations (_inside_grid_with_n, _boundary_grid_with_n) return exactly n rows however many grid points the "
+                 "membership tests keep - decided by evaluating the helper on row-count models for every outcome of every membership test (n = 2, 3, 4)", floor=2,
+                 why="the first grids hold up to 2n candidates: an early return that is not tied to `== n` (or a missing cut / top-up) hands back more or fewer than n rows, "
+                     "which the grid samplers pass on unchanged")
+    from ..absdom.listeval import NotEval, UNKNOWN
+    evaluate, Need, Loud, Pts, helper = grid_helper_evaluator(repo)
+    for fname, extras in (("_inside_grid_with_n", ({"invert": True}, {"invert": False})), ("_boundary_grid_with_n", ({},))):
+        fi = helper.functions.get(fname)
+        if fi is None:
+            raise AnalysisError(f"sampler_helper.{fname} vanished")
+        rep.saw(fi)
+        bad, runs, loud, unknown = [], 0, 0, None
+        for extra in extras:
+            for n in (2, 3, 4):
+                stack = [[]]
+                while stack and unknown is None and runs < 40000:
+                    script = stack.pop()
+                    try:
+                        fr, zero, _req = evaluate(fi, n, script, extra)
+                    except Need as need:
+                        stack.extend(script + [j] for j in range(need.m + 1))
+                        continue
+                    except (Loud, ZeroDivisionError):
+                        loud += 1
+                        continue
+                    except NotEval as ex:
+                        unknown = f"n={n}, membership outcomes {script}: {ex}"
+                        break
+                    runs += 1
+                    got = fr.ret
+                    if got is UNKNOWN or not isinstance(got, Pts):
+                        # a division by a zero count makes the rest unknown: the real code raises there (loud, not a wrong count)
+                        if zero:
+                            loud += 1
+                            continue
+                        unknown = f"n={n}, membership outcomes {script}: result {got!r}"
+                        break
+                    if got.rows != n:
+                        bad.append((n, script, got.rows))
+        if unknown is not None:
+            rep.undecided(R, fi.site(), fi.fq, "row count evaluable for every outcome of the membership tests", unknown[:200])
+            continue
+        w = bad[0] if bad else None
+        rep.check(R, not bad and runs > 0, fi.site(), fi.fq, "n rows for every combination of kept grid points (n = 2, 3, 4)",
+                  (f"{len(bad)} of {runs} outcomes return another count, e.g. n={w[0]} with {w[1]} points kept by the successive membership tests: {w[2]} rows" if w else f"{runs} outcomes, {loud} raising"),
+                  f"{fname}: n={w[0]} kept={w[1]} rows={w[2]}" if w else fname)
+
+
+# ------------------------------------------------------------------ R-C02-14 / 15
+def r14_data_sampler_length(repo: Repo, rep):
+    R = rep.rule("R-C02-14", "DataSampler's n_points is the size of the FIRST axis of its data tensor (the axis that is repeated per parameter row), not Points.__len__ "
+                 "(the product of all batch axes)", floor=1,
+                 why="for data with further batch axes the parameters are replicated N*Q times against N*k data rows: the block layout breaks")
+    from ..util import deref, single_defs
+    ci = repo.cls("problem.samplers.data_samplers.DataSampler")
+    fi = ci.methods.get("__init__")
+    if fi is None:
+        raise AnalysisError("DataSampler.__init__ vanished")
+    rep.saw(fi)
+    tmp = single_defs(fi.node)
+    calls = [c for c in ast.walk(fi.node) if isinstance(c, ast.Call) and isinstance(c.func, ast.Attribute) and c.func.attr == "__init__" and dump(c.func.value).startswith("super(")]
+    if not calls:
+        rep.undecided(R, fi.site(), fi.fq, "super().__init__(n_points=...)", "no such call")
+        return
+    for c in calls:
+        v = kwarg(c, "n_points", 0)
+        if v is None:
+            rep.violation(R, fi.site(c), fi.fq, "n_points handed to the base class", "not passed", "n_points missing")
+            continue
+        t = dump(deref(v, tmp)).replace(" ", "")
+        first_axis = any(t == form for base in ("self.points", "points") for form in (f"len({base}.as_tensor)", f"len({base}._t)", f"{base}.as_tensor.shape[0]", f"{base}._t.shape[0]",
+                                                                                   f"{base}.as_tensor.size(0)", f"{base}._t.size(0)", f"{base}.as_tensor.size(dim=0)"))
+        whole = t in ("len(self.points)", "len(points)", "self.points.__len__()")
+        if first_axis or whole:
+            rep.check(R, first_axis, fi.site(c), fi.fq, "n_points = number of rows along axis 0 of the stored tensor", t, f"n_points = {t}")
+        else:
+            rep.undecided(R, fi.site(c), fi.fq, "n_points recognisable as a row count", t[:100])
+
+
+def r15_quota_loops(repo: Repo, rep):
+    R = rep.rule("R-C02-15", "rejection / top-up loops that fill a quota of n points end only when the quota is met: the `while` test is the bare quota comparison and "
+                 "no `break` leaves the loop on another condition", floor=8,
+                 why="an iteration cap (`and iterations < 20`, `if tries > k: break`) returns fewer than n rows for restrictive filters or thin domains - silently, since the cut only trims surplus rows")
+    from ..util import deref, single_defs, parent_map
+    n_loops = 0
+    for name, m in repo.modules.items():
+        if ".problem.samplers." not in name and ".problem.domains." not in name:
+            continue
+        funcs = list(m.functions.values()) + [fi for ci in m.classes.values() for fi in ci.methods.values()]
+        for fi in funcs:
+            loops = [w for w in ast.walk(fi.node) if isinstance(w, ast.While)]
+            if not loops:
+                continue
+            tmp = single_defs(fi.node)
+            params = set(fi.params)
+            pm = parent_map(fi.node)
+
+            def quota_bound(e):
+                t = dump(deref(e, tmp))
+                return t in params and t in ("n", "n_points") or t in ("self.n_points", "n", "len(self)") or (isinstance(e, ast.Name) and e.id == "n")
+
+            for w in loops:
+                test = w.test
+                conj = test.values if isinstance(test, ast.BoolOp) and isinstance(test.op, ast.And) else [test]
+                quota = [c for c in conj if (isinstance(c, ast.Compare) and len(c.ops) == 1 and isinstance(c.ops[0], (ast.Lt, ast.NotEq)) and quota_bound(c.comparators[0]))
+                         or (isinstance(c, ast.UnaryOp) and isinstance(c.op, ast.Not) and isinstance(c.operand, ast.Call) and dump(c.operand.func) in ("all", "torch.all"))]
+                if not quota:
+                    continue  # not a quota loop (index walks etc.)
+                n_loops += 1
+                rep.saw(fi)
+                extra = [dump(c)[:50] for c in conj if c not in quota]
+                # breaks belonging to this loop (not to a nested loop)
+                breaks = []
+                for b in ast.walk(w):
+                    if isinstance(b, ast.Break):
+                        q = pm.get(id(b))
+                        while q is not None and not isinstance(q, (ast.While, ast.For)):
+                            q = pm.get(id(q))
+                        if q is w:
+                            breaks.append(b)
+                bad_breaks = []
+                for b in breaks:
+                    g = pm.get(id(b))
+                    met = False
+                    if isinstance(g, ast.If) and b in g.body and isinstance(g.test, ast.Compare) and len(g.test.ops) == 1 and isinstance(g.test.ops[0], (ast.GtE, ast.Gt, ast.Eq)):
+                        met = quota_bound(g.test.comparators[0])
+                    if not met:
+                        bad_breaks.append(f"break at line {b.lineno}")
+                ok = not extra and not bad_breaks
+                rep.check(R, ok, fi.site(w), fi.fq, f"loop runs while `{dump(quota[0])[:60]}` and only that decides when it ends",
+                          "; ".join(([f"further exit conditions {extra}"] if extra else []) + bad_breaks), f"quota loop {dump(test)[:80]} {bad_breaks}")
+    if n_loops == 0:
+        rep.undecided(R, "src/torchphysics/problem", "-", "quota loops", "none found")
+
+
 def run(repo: Repo, rep):
     from .generic import g_arg_constructor_parameters
     g_arg_constructor_parameters(repo, rep, lambda m: ".samplers." in m, floor=10,
                                  why="a sampler that ignores n_points / density / filter_fn / params-related arguments returns another number of rows than requested")
     r12_interval_boundary_grid(repo, rep)
+    r13_operation_grids(repo, rep)
+    r14_data_sampler_length(repo, rep)
+    r15_quota_loops(repo, rep)
     from .c01 import r1_facts  # row-wise selection between operand samples keeps row i for parameter row i (masks applied to the rows they were computed on)
     r1_facts(repo, rep)
     from .c15 import r1_static  # a static sampler hands the caller's parameters to the wrapped sampler: n points per parameter row
